@@ -844,9 +844,11 @@ fn with_ext(rng: &mut Rng, body: &B) -> (u8, B, String) {
         b.short(n as u16);
         let mut kvs = vec![];
         for _ in 0..n {
-            let k = if rng.chance(1, 5) { b"tablets-routing-v1".to_vec() } else { ident(rng) };
+            let tab = rng.chance(1, 3);
+            let k = if tab { b"tablets-routing-v1".to_vec() } else { ident(rng) };
             let k = b.string(&k);
-            let v = b.bytes(&blob(rng));
+            let val = if tab && rng.chance(4, 5) { tablet_payload(rng) } else { blob(rng) };
+            let v = b.bytes(&val);
             kvs.push((k, v));
         }
         p = canon_map(&kvs);
@@ -855,6 +857,56 @@ fn with_ext(rng: &mut Rng, body: &B) -> (u8, B, String) {
     b.out.extend_from_slice(&body.out);
     b.marks.extend(body.marks.iter().map(|m| Mark { off: m.off + shift, w: m.w }));
     (flags, b, format!("t={} w={} p={}", t, w, p))
+}
+
+/// A tablets routing payload cell `tuple<bigint, bigint, list<tuple<uuid, int>>>`: mostly well-formed, with
+/// boundary tokens (`first + 1` must not overflow), negative shards, nulls, short tuples and truncations.
+fn tablet_payload(rng: &mut Rng) -> Vec<u8> {
+    fn cell(out: &mut Vec<u8>, body: &[u8]) {
+        out.extend_from_slice(&(body.len() as i32).to_be_bytes());
+        out.extend_from_slice(body);
+    }
+    let a = *rng.pick(&[i64::MIN, i64::MIN + 1, -1, 0, 1, i64::MAX - 1, i64::MAX, 42]);
+    let b = match rng.below(5) {
+        0 => a,
+        1 => a.wrapping_add(1),
+        2 => i64::MAX,
+        3 => i64::MIN,
+        _ => a.wrapping_add(rng.range(-2, 1000)),
+    };
+    let mut out = vec![];
+    cell(&mut out, &a.to_be_bytes());
+    if rng.chance(1, 12) {
+        return out; // short tuple
+    }
+    cell(&mut out, &b.to_be_bytes());
+    if rng.chance(1, 12) {
+        return out;
+    }
+    if rng.chance(1, 12) {
+        out.extend_from_slice(&(-1i32).to_be_bytes()); // null list
+        return out;
+    }
+    let n = rng.below(4) as i32;
+    let mut list = (if rng.chance(1, 10) { *rng.pick(&[-1, n + 1, i32::MAX]) } else { n }).to_be_bytes().to_vec();
+    for _ in 0..n {
+        let mut el = vec![];
+        let ulen = if rng.chance(1, 10) { 15 } else { 16 };
+        cell(&mut el, &rng.bytes(ulen));
+        let shard = *rng.pick(&[0i32, 1, 7, -1, i32::MAX, i32::MIN]);
+        if rng.chance(1, 10) {
+            el.extend_from_slice(&(-1i32).to_be_bytes());
+        } else if !rng.chance(1, 12) {
+            cell(&mut el, &shard.to_be_bytes());
+        }
+        cell(&mut list, &el);
+    }
+    cell(&mut out, &list);
+    if rng.chance(1, 8) && !out.is_empty() {
+        let cut = rng.below(out.len() as u64) as usize;
+        out.truncate(cut);
+    }
+    out
 }
 
 struct WellFormed {
